@@ -92,7 +92,7 @@ class Sphere(Shape3D):
             scale (float):
                 Scale factor.
         """
-        self.radius *= scale
+        self.radius = self.radius * scale
 
     @property
     def volume(self):
